@@ -79,12 +79,12 @@ func c22Decode(kind string, b []byte) ([]byte, error) {
 	case "br":
 		return io.ReadAll(brotli.NewReader(bytes.NewReader(b)))
 	case "zstd":
-		d, err := zstd.NewReader(bytes.NewReader(b))
+		d, err := zstd.NewReader(nil, zstd.WithDecoderConcurrency(1), zstd.WithDecoderLowmem(true))
 		if err != nil {
 			return nil, err
 		}
 		defer d.Close()
-		return io.ReadAll(d)
+		return d.DecodeAll(b, nil)
 	}
 	return nil, fmt.Errorf("unknown coding %q", kind)
 }
@@ -477,13 +477,16 @@ func c22Handler(a [][]byte) *Case {
 	if valid, _ := c22ParseAE(string(aeSeen)); !valid {
 		tags = append(tags, "ae-malformed")
 	}
-	return &Case{Lines: []string{line}, Impl: impl, Nontrivial: compressed || len(in.ce) > 0 || len(body) >= 150, Tags: tags,
+	what := fmt.Sprintf("AE %q CT %q CE %q Vary %q mode %c body %d", aeSeen, ctSeen, in.ce, in.vry, in.mode, len(body))
+	nontrivial := compressed || len(in.ce) > 0 || len(body) >= 150
+	// the closure must not keep the (possibly multi-MiB) bodies alive: every case stays in memory until the run ends
+	return &Case{Lines: []string{line}, Impl: impl, Nontrivial: nontrivial, Tags: tags,
 		Judge: func(r []string) Verdict {
 			if v.Kind != VOk {
 				return v
 			}
 			if r[0] != "no-driver" && r[0] != impl {
-				return Verdict{VCorr, "handler-decision", fmt.Sprintf("AE %q CT %q CE %q Vary %q mode %c body %d: impl %s model %s", aeSeen, ctSeen, in.ce, in.vry, in.mode, len(body), impl, r[0])}
+				return Verdict{VCorr, "handler-decision", fmt.Sprintf("%s: impl %s model %s", what, impl, r[0])}
 			}
 			return Ok()
 		}}
@@ -530,9 +533,11 @@ func c22Codec(a [][]byte) *Case {
 	out, err := c22Compress(kind, api, level, dst, src)
 	impl := fmt.Sprintf("err=%v out=%d", err, len(out))
 	norm := fasthttp.VerifNormalizeCompressLevel(kind, level)
-	return &Case{Lines: []string{Line("c22normlevel", a[0], a[2])}, Impl: impl, Nontrivial: len(src) > 0, Tags: []string{"codec-" + kind + "-" + string(api)},
+	v := c22CheckOutput(kind, api, level, dst, src, out, err, "codec")
+	nontrivial := len(src) > 0
+	return &Case{Lines: []string{Line("c22normlevel", a[0], a[2])}, Impl: impl, Nontrivial: nontrivial, Tags: []string{"codec-" + kind + "-" + string(api)},
 		Judge: func(r []string) Verdict {
-			if v := c22CheckOutput(kind, api, level, dst, src, out, err, "codec"); v.Kind != VOk {
+			if v.Kind != VOk {
 				return v
 			}
 			if r[0] != "no-driver" && r[0] != fmt.Sprint(norm) {
@@ -1054,6 +1059,16 @@ func c22Storm(a [][]byte) *Case {
 	var firstBad atomic.Value
 	var empties, errs atomic.Int64
 	apis := []byte("AAaWG")
+	type result struct {
+		kind  string
+		api   byte
+		level int
+		src   []byte
+		out   []byte
+		err   error
+	}
+	results := make([]result, n)
+	// all calls are in flight together …
 	for i := 0; i < n; i++ {
 		wg.Add(1)
 		go func(i int) {
@@ -1067,17 +1082,34 @@ func c22Storm(a [][]byte) *Case {
 				level++
 			}
 			out, err := c22Compress(kind, api, level, nil, src)
-			if v := c22CheckOutput(kind, api, level, nil, src, out, err, "concurrent"); v.Kind != VOk {
-				if strings.HasSuffix(v.Key, "empty-output") {
-					empties.Add(1)
-				}
-				if strings.HasSuffix(v.Key, "-error") {
-					errs.Add(1)
-				}
-				firstBad.CompareAndSwap(nil, v)
-			}
+			results[i] = result{kind, api, level, src, out, err}
 		}(i)
 	}
+	wg.Wait()
+	// … their outputs are checked afterwards by a few workers (a decoder per call in flight would need gigabytes)
+	idx := make(chan int, 256)
+	for w := 0; w < 8; w++ {
+		wg.Add(1)
+		go func() {
+			defer wg.Done()
+			for i := range idx {
+				r := results[i]
+				if v := c22CheckOutput(r.kind, r.api, r.level, nil, r.src, r.out, r.err, "concurrent"); v.Kind != VOk {
+					if strings.HasSuffix(v.Key, "empty-output") {
+						empties.Add(1)
+					}
+					if strings.HasSuffix(v.Key, "-error") {
+						errs.Add(1)
+					}
+					firstBad.CompareAndSwap(nil, v)
+				}
+			}
+		}()
+	}
+	for i := 0; i < n; i++ {
+		idx <- i
+	}
+	close(idx)
 	wg.Wait()
 	impl := fmt.Sprintf("calls=%d empty=%d errors=%d", n, empties.Load(), errs.Load())
 	return &Case{Impl: impl, Nontrivial: true, Tags: []string{"storm"},
@@ -1126,7 +1158,7 @@ func init() {
 		},
 		Gen: func(r *Rand, tier string, emit func(string, ...[]byte)) {
 			c22Tier = tier
-			n := 1200
+			n := 800
 			if tier == "thorough" {
 				n = 12000
 			}
@@ -1178,7 +1210,7 @@ func init() {
 				case 5:
 					return 4096 + r.Intn(10000)
 				case 6:
-					if tier == "thorough" && r.Chance(30) {
+					if tier == "thorough" && r.Chance(4) {
 						return 1<<20 + r.Intn(3<<20)
 					}
 					return 60000 + r.Intn(200000)
@@ -1268,7 +1300,7 @@ func init() {
 				emit("storm", N(60000), r.Bytes(4, nil))
 				emit("storm", N(60000), r.Bytes(4, nil))
 			} else {
-				emit("storm", N(6000), r.Bytes(4, nil))
+				emit("storm", N(4000), r.Bytes(4, nil))
 			}
 		},
 	})
